@@ -236,10 +236,14 @@ Definition norm_profiles (ps : option (list profile)) : list profile :=
    q_fmt      : _replace: an unknown variable written with a format specifier is formatted with itself
                 ('{x:>10}' -> '   {x:>10}', '{x:%Y}' -> ValueError) instead of being kept
    q_metanl   : update_from_file replaces the line breaks of a continued value by blanks, but not those of a continued
-                metadata value (key:help = ...): a wrapped help text is read back with "\n" in it *)
-Record quirks : Set := { q_stale : bool; q_fbsect : bool; q_mkey : bool; q_fmt : bool; q_metanl : bool }.
-Definition all_off : quirks := {| q_stale := false; q_fbsect := false; q_mkey := false; q_fmt := false; q_metanl := false |}.
-Definition all_on : quirks := {| q_stale := true; q_fbsect := true; q_mkey := true; q_fmt := true; q_metanl := true |}.
+                metadata value (key:help = ...): a wrapped help text is read back with "\n" in it
+   q_clear    : clear() empties the flattened view (and the variables) but not the per-profile data: every cleared
+                entry is back after the next update *)
+Record quirks : Set := { q_stale : bool; q_fbsect : bool; q_mkey : bool; q_fmt : bool; q_metanl : bool; q_clear : bool }.
+Definition all_off : quirks :=
+  {| q_stale := false; q_fbsect := false; q_mkey := false; q_fmt := false; q_metanl := false; q_clear := false |}.
+Definition all_on : quirks :=
+  {| q_stale := true; q_fbsect := true; q_mkey := true; q_fmt := true; q_metanl := true; q_clear := true |}.
 
 Inductive err : Set := ErrSection | ErrEntry | ErrConfig | ErrValue | ErrParse.
 Inductive res (A : Type) : Type := Ok (a : A) | Err (e : err).
@@ -831,7 +835,9 @@ Inductive op : Set :=
 | OProfiles (ps : option (list profile))
 | OMaster (m : option string)
 | OFallback (f : option config)
-| OVars (vs : list (string * string)).
+| OVars (vs : list (string * string))
+| OClearVars
+| OClear.
 
 Fixpoint options_batch (q : quirks) (c : config) (opts : list string) (p : profile) (src : string)
          (allow_new : bool) : config * res unit :=
@@ -881,6 +887,8 @@ Definition apply_op (q : quirks) (c : config) (o : op) : config * res unit :=
   | OMaster m => (with_master c m, Ok tt)
   | OFallback f => (with_fallback c f, Ok tt)
   | OVars vs => (with_vars c (merge_vars (c_vars c) vs), Ok tt)
+  | OClearVars => (with_vars c [], Ok tt)
+  | OClear => (with_vars (with_view (if q_clear q then c else with_raw c []) []) [], Ok tt)
   end.
 
 Definition run (q : quirks) (ops : list op) (c : config) : config :=
@@ -1014,10 +1022,10 @@ Definition agrees (q : quirks) (k : case) : bool :=
 
 Definition quirks_of_mask (m : nat) : quirks :=
   {| q_stale := Nat.testbit m 0; q_fbsect := Nat.testbit m 1; q_mkey := Nat.testbit m 2; q_fmt := Nat.testbit m 3;
-     q_metanl := Nat.testbit m 4 |}.
+     q_metanl := Nat.testbit m 4; q_clear := Nat.testbit m 5 |}.
 
 (* subsets ordered by size, so that the smallest explanation is reported *)
-Definition masks : list nat := [1; 2; 4; 8; 16; 3; 5; 6; 9; 10; 12; 17; 18; 20; 24; 7; 11; 13; 14; 19; 21; 22; 25; 26; 28; 15; 23; 27; 29; 30; 31]%nat.
+Definition masks : list nat := [1; 2; 4; 8; 16; 32; 3; 5; 6; 9; 10; 12; 17; 18; 20; 24; 33; 34; 36; 40; 48; 7; 11; 13; 14; 19; 21; 22; 25; 26; 28; 35; 37; 38; 41; 42; 44; 49; 50; 52; 56; 15; 23; 27; 29; 30; 39; 43; 45; 46; 51; 53; 54; 57; 58; 60; 31; 47; 55; 59; 61; 62; 63]%nat.
 
 (* 0 = midgard equals the specification; 100+mask = equals the model with exactly these deviations switched on;
    1 = unexplained *)
